@@ -663,3 +663,6 @@ RULES = [
     ("C06.TWINCALL", 7, rule_twincall),
     ("C06.SYMSCORE", 9, rule_symscore),
 ]
+
+from . import common as _common_purity
+RULES = RULES + _common_purity.purity_rules("C06")
